@@ -8,6 +8,7 @@ from vf.monitors import OperatorMonitor, capture, describe
 from vf.ref import logic
 
 from ahbicht.expressions.condition_expression_parser import parse_condition_expression_to_tree
+from ahbicht.expressions.requirement_constraint_expression_evaluation import requirement_constraint_evaluation
 
 
 def nontrivial(ast) -> bool:
@@ -84,11 +85,39 @@ async def run(ctx):
             else:
                 case = make_case(rng, rng.randint(4, 6), G.DEFAULT_POOLS, 24 if ctx.quick else 30)
             await check_expression(ctx, case)
+            if i % 4 == 0:
+                await check_shipped(ctx, case)
             if i % 300 == 0:
                 ctx.sample({"s": case["s"], "rc_keys": G.keys_of(case["ast"], "rc")}, cls="expression")
         ctx.count("operator_calls_observed", mon.calls)
 
 
+async def check_shipped(ctx, case):
+    """the same expression through the library's own dictionary based and ContentEvaluationResult based evaluators"""
+    ast, s = case["ast"], case["s"]
+    ctx.set_case("shipped", case)
+    rcs = G.keys_of(ast, "rc")
+    hints = {k: "Hinweis " + k for k in G.keys_of(ast, "hint")}
+    for asg in (case.get("assignments") or [{k: ctx.rng.choice("FUK") for k in rcs} for _ in range(3)]):
+        cer = E.make_cer(asg, {k: True for k in G.keys_of(ast, "fc")}, hints)
+        expected = logic.OUTCOME[logic.ref_eval(ast, asg)]
+        for mode in ("hardcoded", "cer"):
+            ctx.evaluation()
+            ctx.count("evaluations_with_shipped_evaluators")
+            out = await H.with_shipped_evaluators(mode, cer, lambda: requirement_constraint_evaluation(s))
+            wcase = dict(case, assignments=[asg])
+            if out[0] != "ok":
+                ctx.violation(f"evaluation-raises-{type(out[1]).__name__}", f"requirement_constraint_evaluation({s!r}) with the {mode} evaluators under {asg} {describe(out)[:300]}", case=wcase)
+                return
+            got = (out[1].requirement_constraints_fulfilled, out[1].requirement_is_conditional)
+            if got != expected:
+                ctx.violation("outcome-mapping", f"{s!r} under {asg} with the {mode} evaluators: (fulfilled, conditional) = {got}, documented mapping of state {logic.NAME[logic.ref_eval(ast, asg)]} is {expected}", case=wcase)
+                return
+
+
 async def replay(ctx, phase, case):
     E.install()
-    await check_expression(ctx, case, async_budget=10**9)
+    if phase == "shipped":
+        await check_shipped(ctx, case)
+    else:
+        await check_expression(ctx, case, async_budget=10**9)
